@@ -17,44 +17,56 @@ func pt(p any) {
 	}
 }
 
-func AddInt32(a *int32, d int32) int32       { pt(a); return atomic.AddInt32(a, d) }
-func AddInt64(a *int64, d int64) int64       { pt(a); return atomic.AddInt64(a, d) }
-func AddUint32(a *uint32, d uint32) uint32   { pt(a); return atomic.AddUint32(a, d) }
-func AddUint64(a *uint64, d uint64) uint64   { pt(a); return atomic.AddUint64(a, d) }
-func LoadInt32(a *int32) int32               { pt(a); return atomic.LoadInt32(a) }
-func LoadInt64(a *int64) int64               { pt(a); return atomic.LoadInt64(a) }
-func LoadUint32(a *uint32) uint32            { pt(a); return atomic.LoadUint32(a) }
-func LoadUint64(a *uint64) uint64            { pt(a); return atomic.LoadUint64(a) }
-func StoreInt32(a *int32, v int32)           { pt(a); atomic.StoreInt32(a, v) }
-func StoreInt64(a *int64, v int64)           { pt(a); atomic.StoreInt64(a, v) }
-func StoreUint32(a *uint32, v uint32)        { pt(a); atomic.StoreUint32(a, v) }
-func StoreUint64(a *uint64, v uint64)        { pt(a); atomic.StoreUint64(a, v) }
-func SwapInt32(a *int32, v int32) int32      { pt(a); return atomic.SwapInt32(a, v) }
-func SwapInt64(a *int64, v int64) int64      { pt(a); return atomic.SwapInt64(a, v) }
-func SwapUint32(a *uint32, v uint32) uint32  { pt(a); return atomic.SwapUint32(a, v) }
-func SwapUint64(a *uint64, v uint64) uint64  { pt(a); return atomic.SwapUint64(a, v) }
-func CompareAndSwapInt32(a *int32, o, n int32) bool    { pt(a); return atomic.CompareAndSwapInt32(a, o, n) }
-func CompareAndSwapInt64(a *int64, o, n int64) bool    { pt(a); return atomic.CompareAndSwapInt64(a, o, n) }
-func CompareAndSwapUint32(a *uint32, o, n uint32) bool { pt(a); return atomic.CompareAndSwapUint32(a, o, n) }
-func CompareAndSwapUint64(a *uint64, o, n uint64) bool { pt(a); return atomic.CompareAndSwapUint64(a, o, n) }
+func AddInt32(a *int32, d int32) int32      { pt(a); return atomic.AddInt32(a, d) }
+func AddInt64(a *int64, d int64) int64      { pt(a); return atomic.AddInt64(a, d) }
+func AddUint32(a *uint32, d uint32) uint32  { pt(a); return atomic.AddUint32(a, d) }
+func AddUint64(a *uint64, d uint64) uint64  { pt(a); return atomic.AddUint64(a, d) }
+func LoadInt32(a *int32) int32              { pt(a); return atomic.LoadInt32(a) }
+func LoadInt64(a *int64) int64              { pt(a); return atomic.LoadInt64(a) }
+func LoadUint32(a *uint32) uint32           { pt(a); return atomic.LoadUint32(a) }
+func LoadUint64(a *uint64) uint64           { pt(a); return atomic.LoadUint64(a) }
+func StoreInt32(a *int32, v int32)          { pt(a); atomic.StoreInt32(a, v) }
+func StoreInt64(a *int64, v int64)          { pt(a); atomic.StoreInt64(a, v) }
+func StoreUint32(a *uint32, v uint32)       { pt(a); atomic.StoreUint32(a, v) }
+func StoreUint64(a *uint64, v uint64)       { pt(a); atomic.StoreUint64(a, v) }
+func SwapInt32(a *int32, v int32) int32     { pt(a); return atomic.SwapInt32(a, v) }
+func SwapInt64(a *int64, v int64) int64     { pt(a); return atomic.SwapInt64(a, v) }
+func SwapUint32(a *uint32, v uint32) uint32 { pt(a); return atomic.SwapUint32(a, v) }
+func SwapUint64(a *uint64, v uint64) uint64 { pt(a); return atomic.SwapUint64(a, v) }
+func CompareAndSwapInt32(a *int32, o, n int32) bool {
+	pt(a)
+	return atomic.CompareAndSwapInt32(a, o, n)
+}
+func CompareAndSwapInt64(a *int64, o, n int64) bool {
+	pt(a)
+	return atomic.CompareAndSwapInt64(a, o, n)
+}
+func CompareAndSwapUint32(a *uint32, o, n uint32) bool {
+	pt(a)
+	return atomic.CompareAndSwapUint32(a, o, n)
+}
+func CompareAndSwapUint64(a *uint64, o, n uint64) bool {
+	pt(a)
+	return atomic.CompareAndSwapUint64(a, o, n)
+}
 func LoadPointer(a *unsafe.Pointer) unsafe.Pointer     { pt(a); return atomic.LoadPointer(a) }
 func StorePointer(a *unsafe.Pointer, v unsafe.Pointer) { pt(a); atomic.StorePointer(a, v) }
 
 type Int32 struct{ v atomic.Int32 }
 
-func (x *Int32) Load() int32                      { pt(x); return x.v.Load() }
-func (x *Int32) Store(v int32)                    { pt(x); x.v.Store(v) }
-func (x *Int32) Add(d int32) int32                { pt(x); return x.v.Add(d) }
-func (x *Int32) Swap(v int32) int32               { pt(x); return x.v.Swap(v) }
-func (x *Int32) CompareAndSwap(o, n int32) bool   { pt(x); return x.v.CompareAndSwap(o, n) }
+func (x *Int32) Load() int32                    { pt(x); return x.v.Load() }
+func (x *Int32) Store(v int32)                  { pt(x); x.v.Store(v) }
+func (x *Int32) Add(d int32) int32              { pt(x); return x.v.Add(d) }
+func (x *Int32) Swap(v int32) int32             { pt(x); return x.v.Swap(v) }
+func (x *Int32) CompareAndSwap(o, n int32) bool { pt(x); return x.v.CompareAndSwap(o, n) }
 
 type Int64 struct{ v atomic.Int64 }
 
-func (x *Int64) Load() int64                      { pt(x); return x.v.Load() }
-func (x *Int64) Store(v int64)                    { pt(x); x.v.Store(v) }
-func (x *Int64) Add(d int64) int64                { pt(x); return x.v.Add(d) }
-func (x *Int64) Swap(v int64) int64               { pt(x); return x.v.Swap(v) }
-func (x *Int64) CompareAndSwap(o, n int64) bool   { pt(x); return x.v.CompareAndSwap(o, n) }
+func (x *Int64) Load() int64                    { pt(x); return x.v.Load() }
+func (x *Int64) Store(v int64)                  { pt(x); x.v.Store(v) }
+func (x *Int64) Add(d int64) int64              { pt(x); return x.v.Add(d) }
+func (x *Int64) Swap(v int64) int64             { pt(x); return x.v.Swap(v) }
+func (x *Int64) CompareAndSwap(o, n int64) bool { pt(x); return x.v.CompareAndSwap(o, n) }
 
 type Uint32 struct{ v atomic.Uint32 }
 
@@ -81,14 +93,14 @@ func (x *Bool) CompareAndSwap(o, n bool) bool { pt(x); return x.v.CompareAndSwap
 
 type Value struct{ v atomic.Value }
 
-func (x *Value) Load() any                     { pt(x); return x.v.Load() }
-func (x *Value) Store(v any)                   { pt(x); x.v.Store(v) }
-func (x *Value) Swap(v any) any                { pt(x); return x.v.Swap(v) }
-func (x *Value) CompareAndSwap(o, n any) bool  { pt(x); return x.v.CompareAndSwap(o, n) }
+func (x *Value) Load() any                    { pt(x); return x.v.Load() }
+func (x *Value) Store(v any)                  { pt(x); x.v.Store(v) }
+func (x *Value) Swap(v any) any               { pt(x); return x.v.Swap(v) }
+func (x *Value) CompareAndSwap(o, n any) bool { pt(x); return x.v.CompareAndSwap(o, n) }
 
 type Pointer[T any] struct{ v atomic.Pointer[T] }
 
-func (x *Pointer[T]) Load() *T                     { pt(x); return x.v.Load() }
-func (x *Pointer[T]) Store(v *T)                   { pt(x); x.v.Store(v) }
-func (x *Pointer[T]) Swap(v *T) *T                 { pt(x); return x.v.Swap(v) }
-func (x *Pointer[T]) CompareAndSwap(o, n *T) bool  { pt(x); return x.v.CompareAndSwap(o, n) }
+func (x *Pointer[T]) Load() *T                    { pt(x); return x.v.Load() }
+func (x *Pointer[T]) Store(v *T)                  { pt(x); x.v.Store(v) }
+func (x *Pointer[T]) Swap(v *T) *T                { pt(x); return x.v.Swap(v) }
+func (x *Pointer[T]) CompareAndSwap(o, n *T) bool { pt(x); return x.v.CompareAndSwap(o, n) }
